@@ -83,30 +83,33 @@ def parse(out):
 def playback(repo_k, harness, target_dir, timeout):
     """re-run one failing harness with concrete playback inserted in place, then execute it natively"""
     rc, out, _ = run_kani(repo_k, [harness], target_dir, timeout, ["-Z", "concrete-playback", "--concrete-playback=inplace"])
-    m = re.search(r"kani_concrete_playback_\w+", out)
-    if not m:
+    tests = sorted(set(re.findall(r"kani_concrete_playback_\w+", out)))
+    if not tests:
         return {"reproduced": False, "why": "no concrete playback test was generated", "log": out[-1500:]}
-    test = m.group(0)
+    test = "kani_concrete_playback_" + harness
     env = dict(os.environ)
     env["CARGO_NET_OFFLINE"] = "true"
     env["CARGO_TARGET_DIR"] = os.path.join(os.path.dirname(target_dir), "kani-playback-target")
+    # all generated tests of this harness (one per failed check / satisfied cover) are run natively
     cmd = ["cargo", "kani", "playback", "-Z", "concrete-playback", "--features", FEATURES, "--", test]
     try:
         p = subprocess.run(cmd, cwd=repo_k, env=env, stdout=subprocess.PIPE, stderr=subprocess.STDOUT, text=True, timeout=timeout)
         pout = p.stdout
     except subprocess.TimeoutExpired:
         return {"reproduced": False, "why": "playback timed out", "test": test}
-    failed = bool(re.search(r"test result: FAILED|panicked at", pout)) and test in pout
+    failed = bool(re.search(r"test result: FAILED", pout)) and bool(re.search(r"panicked at", pout))
+    m2 = re.search(r"panicked at ([^\n]*)\n([^\n]*)", pout)
+    panic_msg = (m2.group(1) + " " + m2.group(2)) if m2 else ""
     # the generated test source (values) for the report
     src = ""
     for root, _, files in os.walk(os.path.join(repo_k, "src")):
         for fn in files:
             p_ = os.path.join(root, fn)
             s = open(p_).read()
-            i = s.find("fn " + test)
+            i = s.find("fn " + tests[-1])
             if i >= 0:
                 src = s[max(0, i - 40): i + 1500]
-    return {"reproduced": failed, "test": test, "playback_output": pout[-2500:], "generated_test": src}
+    return {"reproduced": failed, "test": test, "native_panic": panic_msg, "playback_output": pout[-1500:], "generated_test": src}
 
 
 def run(prop, tier, seed, spec):
@@ -132,6 +135,10 @@ def run(prop, tier, seed, spec):
         target_dir = os.path.join(CACHE, "kani-target-" + prop)
         timeout = spec.get("timeout_s", 1500)
         rc, out, wall = run_kani(repo_k, harnesses, target_dir, timeout)
+        try:
+            open(os.path.join(CACHE, "kani-last-%s.log" % prop), "w").write(out)
+        except OSError:
+            pass
         res = parse(out)
         rows = []
         n_ok = 0
@@ -164,7 +171,7 @@ def run(prop, tier, seed, spec):
                 pb = playback(repo_k, h, target_dir, timeout)
                 os.makedirs(REPLAYS, exist_ok=True)
                 path = os.path.join(REPLAYS, "%s-kani-%s.json" % (prop, h))
-                v = {"property": prop, "scenario": "kani:" + h, "label": h, "detail": "; ".join(r["failed"])[:600], "kind": "kani", "playback": pb}
+                v = {"property": prop, "scenario": "kani:" + h, "label": h, "detail": ("; ".join(r["failed"]) + " | native: " + pb.get("native_panic", ""))[:700], "kind": "kani", "playback": pb}
                 json.dump(v, open(path, "w"), indent=1)
                 v["replay"] = path
                 v["reproduced"] = bool(pb.get("reproduced"))
